@@ -170,6 +170,42 @@ def run(ck, n_gen=None):
             part = "nodes" if i < _split_nodes_body(a) else "body"
             mism.append(dict(text=texts[k], part=part,
                              detail="token %d of %d/%d: impl [%s] | model [%s]" % (i, len(a), len(b), show(a[max(0, i - 6):i + 6]), show(b[max(0, i - 6):i + 6]))))
+    # ---- the same in the regime a stable compiler runs the macro in: Span::join fails.  The real parser and generator are run again
+    # with joins failing (vendored proc-macro2, VERIF_NOJOIN); the model is given the JOINED syntax tree and applies its own
+    # `noJoin` transformation (Nodes.lean) - locations and every token with its span must agree.
+    envnj = dict(os.environ)
+    envnj["VERIF_NOJOIN"] = "1"
+    outs_nj = ck.rt_batch(["run " + hexs(t) for t in texts], binary="inproc", harness="inproc", env=envnj)
+    nreq, nidx = [], []
+    for k, (o, onj) in enumerate(zip(outs, outs_nj)):
+        f, fn = o.split("\t"), onj.split("\t")
+        if f[0] != fn[0]:
+            mism.append(dict(text=texts[k], part="nojoin-status", detail="with joins failing the front end answers %s instead of %s" % (fn[0], f[0])))
+        elif f[0] == "ok":
+            nreq.append("expandnj\t%s\t%s" % (f[1], f[2]))
+            nidx.append(k)
+    nouts = ck.lean_batch(nreq) if nreq else []
+    stats["nojoin_compared"] = len(nidx)
+    stats["nojoin_tokens_compared"] = 0
+    stats["nojoin_locations_that_differ_from_joined"] = 0
+    for k, lo in zip(nidx, nouts):
+        f, fn = outs[k].split("\t"), outs_nj[k].split("\t")
+        g = lo.split("\t")
+        if g[0] != "ok":
+            mism.append(dict(text=texts[k], part="nojoin-status", detail="model answered %s" % g[0]))
+            continue
+        if fn[4] != f[4]:
+            stats["nojoin_locations_that_differ_from_joined"] += 1
+        if g[1] != fn[4]:
+            mism.append(dict(text=texts[k], part="nojoin-locations", detail="impl (joins failing) %s | model noJoin %s" % (fn[4], g[1])))
+        a = fn[6][6:-1].split(" ")
+        b = g[2][6:-1].split(" ")
+        stats["nojoin_tokens_compared"] += len(a)
+        if a != b:
+            i = next((i for i, (x, y) in enumerate(zip(a, b)) if x != y), min(len(a), len(b)))
+            part = "nojoin-nodes" if i < _split_nodes_body(a) else "nojoin-body"
+            mism.append(dict(text=texts[k], part=part,
+                             detail="joins failing, token %d of %d/%d: impl [%s] | model [%s]" % (i, len(a), len(b), show(a[max(0, i - 6):i + 6]), show(b[max(0, i - 6):i + 6]))))
     res = dict(stats=stats, mismatches=mism[:200], n_mismatches=len(mism))
     json.dump(res, open(cpath, "w"))
     files = sorted((os.path.getmtime(os.path.join(cdir, f)), f) for f in os.listdir(cdir))
@@ -180,10 +216,11 @@ def run(ck, n_gen=None):
 
 def record(ck, res, parts, what):
     """Adds the T2 tie to the evidence; returns the mismatches in `parts`."""
-    mm = [m for m in res["mismatches"] if m["part"] in parts]
+    # a part asked for is asked for in both regimes (spans joined in process; joins failing as inside a stable compiler)
+    mm = [m for m in res["mismatches"] if m["part"] in parts or (m["part"].startswith("nojoin-") and m["part"][7:] in parts)]
     st = res["stats"]
-    ck.corr_record("T2 expansion tokens (%s): real expand::expand output vs AsModel.Render, token by token and span by span" % what,
-                   st["accepted"] + st["panicked"], st["accepted"], len(mm),
+    ck.corr_record("T2 expansion tokens (%s): real expand::expand output vs AsModel.Render, token by token and span by span, in two regimes: spans joined, and Span::join failing as inside a stable compiler (there the model is given the joined syntax tree and applies its own noJoin transformation)" % what,
+                   st["accepted"] + st["panicked"] + st.get("nojoin_compared", 0), st["accepted"], len(mm),
                    {k: v for k, v in st.items()},
                    samples=[dict(invocation=m["text"][:200], part=m["part"], detail=m["detail"][:300]) for m in mm[:2]] or
                            [dict(note="all %d accepted invocations agree (%d tokens compared)" % (st["accepted"], st["tokens_compared"]))],
